@@ -74,7 +74,8 @@ def make_state(domain, facts, fluents, objects=None, is_init=False):
     for (name, args), v in fluents.items():
         lifted = domain.functions[name]
         sig = {a: t for a, t in zip(args, lifted.signature.values())}
-        f = PDDLFunction(name=name, signature=sig)
+        rep = {a: args.count(a) for a in args if args.count(a) > 1}     # the problem parser's bookkeeping of repeats
+        f = PDDLFunction(name=name, signature=sig, repeating_variables=rep)
         f.set_value(v)
         fl[f.untyped_representation] = f
     return State(predicates=preds, fluents=fl, is_init=is_init)
